@@ -142,6 +142,11 @@ def run_query(idx, q):
         view = DataIndexView(idx, lambda kk: kk in acc)
         k, v = safe_call(lambda: sorted([list(kk), proj(e)] for kk, e in view.iteritems()))
         return v
+    if kind == "view_prefix":
+        acc = {tuple(a) for a in q["accept"]}
+        view = DataIndexView(idx, lambda kk: kk in acc)
+        k, v = safe_call(lambda: sorted([list(kk), proj(e)] for kk, e in view.iteritems(prefix=key)), expected=(KeyError,))
+        return v if k == "ok" else v
     raise ValueError(kind)
 
 
@@ -173,7 +178,11 @@ def check(ctx, case):
             # prefix-closed filter: a key is accepted with all of its prefixes
             chosen = [k for k in allkeys if rng.random() < 0.5]
             acc = sorted({k[:i] for k in chosen for i in range(1, len(k) + 1)})
-            queries.append({"q": "view", "accept": [list(a) for a in acc]})
+            if acc and rng.random() < 0.35:
+                # the view iterated under a prefix it accepts (possibly strictly inside an unloaded directory object)
+                queries.append({"q": "view_prefix", "accept": [list(a) for a in acc], "key": list(rng.choice(acc))})
+            else:
+                queries.append({"q": "view", "accept": [list(a) for a in acc]})
     caseq = {**case, "queries": queries}
     ctx.case(caseq, nontrivial=any(q["q"] in ("get", "ls", "info") and tuple(q["key"]) in below for q in queries))
     ctx.count("backend:%s" % ("sqlite" if case["sqlite"] else "memory"))
@@ -251,7 +260,7 @@ def check(ctx, case):
                 entries.append({"key": list(k), "isdir": True, "hash": None, "loaded": True})
     mq = []
     for q in queries:
-        if q["q"] == "info":
+        if q["q"] in ("info", "view_prefix"):
             mq.append({"q": "get", "key": q["key"]})
         else:
             mq.append(q)
@@ -261,8 +270,9 @@ def check(ctx, case):
         return
     impl_view, model_view = [], []
     for q, a, m in zip(queries, impl_l, ans["results"]):
-        if q["q"] == "info":
-            # info() of a missing key below a loaded directory raises KeyError, of an implicit node says "directory"
+        if q["q"] in ("info", "view_prefix"):
+            # info() of a missing key below a loaded directory raises KeyError, of an implicit node says "directory";
+            # a view under a prefix is compared lazy against expanded only
             continue
         if q["q"] == "get" and a == "KeyError" and m == "KeyError":
             continue
